@@ -20,6 +20,7 @@ type pipeInput struct {
 	Package        string
 	AllowedObjects []string
 	Transforms     []string
+	CueImports     []string // cue: "<dir>:<import path>"
 }
 
 type langCfg struct {
@@ -69,6 +70,12 @@ func (c pipeCfg) YAML() string {
 		if len(in.AllowedObjects) > 0 {
 			sb.WriteString("      allowed_objects:\n")
 			for _, o := range in.AllowedObjects {
+				fmt.Fprintf(&sb, "        - %s\n", yq(o))
+			}
+		}
+		if len(in.CueImports) > 0 {
+			sb.WriteString("      cue_imports:\n")
+			for _, o := range in.CueImports {
 				fmt.Fprintf(&sb, "        - %s\n", yq(o))
 			}
 		}
